@@ -3,6 +3,7 @@ import IrVerif.Drive.Scope
 import IrVerif.Model.ScopeMeta
 import IrVerif.Model.ScopeFunc9
 import IrVerif.Model.ScopeExt
+import IrVerif.Model.ScopeEff
 /-! Protocol handler for the decoration layer `IrVerif.Model.ScopeMeta` (C03 / C17).
 
 SS      = [[key, value]]
@@ -249,6 +250,31 @@ def modelEJ (m : ModelE) : Json := obj [("p", graphEJ m.graph), ("funcs", Json.a
 def mworldEJ (w : MWorldE) : List (String × Json) :=
   [("world", mworldJ w.core), ("ext", extJ w.st w.ext)]
 
+def payloadJ : Payload → Json
+  | .optName n => optStrJ n
+  | .info _ => Json.str "<info>"
+  | .optNat n => (match n with | some k => toJson k | none => Json.null)
+  | .ss m => ssJ m
+  | .optSS m => (match m with | some d => ssJ d | none => Json.null)
+  | .str s => Json.str s
+  | .devs _ => Json.str "<devs>"
+
+/-- an effect of `Model/ScopeEff.lean`: [kind, id, attribute, value] -/
+def effectJ (e : Effect) : Json := Json.arr #[Json.str e.kind.str, toJson e.id, Json.str e.attr, payloadJ e.val]
+
+def sitesJ (l : List WriteSite) : Json := Json.arr (l.map fun s => Json.arr #[Json.str s.kind.str, Json.str s.attr]).toArray
+
+/-- the effect log of `serializeEff`, whether every effect is at a site of `writeSites` (hypothesis of
+    `C03_pure_frame`), and whether replaying the log gives the heap `serializeE` returned (`C03_pure_sites`) -/
+def effReport (ver : Option Int) (w w1 : WorldE) : List (String × Json) :=
+  match serializeEff ver w with
+  | .error _ => [("eff_ok", toJson false)]
+  | .ok (es, _) =>
+    let r := runEffects es w
+    [("eff_ok", toJson true), ("effects", Json.arr (es.map effectJ).toArray),
+      ("effects_at_sites", toJson (es.all fun e => writeSites.contains e.site)),
+      ("replay_agrees", toJson ((List.range w.st.nt).all fun i => r.st.tens i == w1.st.tens i))]
+
 /-- serialize `w`; when that succeeds also: reload, canonical form, second serialization -/
 def serReport (w : ModelDS) : List (String × Json) :=
   match serModelD w with
@@ -346,7 +372,11 @@ def handle : Handler := fun m j =>
           | .error e => [("deser_ok", toJson false), ("err", errJ e)]
           | .ok w2 => [("deser_ok", toJson true), ("world2", worldJ w2.core), ("ext2", extJ w2.st w2.ext)]
         return obj ([("ser_ok", toJson true), ("p", graphEJ p),
-          ("tens_after", Json.arr ((List.range w1.st.nt).map fun i => tensorSJ (w1.st.tens i)).toArray)] ++ twice ++ rt)
+          ("tens_after", Json.arr ((List.range w1.st.nt).map fun i => tensorSJ (w1.st.tens i)).toArray)] ++ twice ++ rt
+          ++ effReport ver w w1)
+  | "scope.sites" => some do
+      -- the write sites of serde.py's serialize_* functions according to `Model/ScopeEff.lean`
+      return obj [("sites", sitesJ writeSites)]
   | "scope.mdeser9" => some do
       -- IR version < 10: `deserializeM9`, then serialize / deserialize / serialize again (the model does NOT
       -- claim a fix-point here: q2 is reported and compared with the real second serialization)
@@ -367,7 +397,9 @@ def handle : Handler := fun m j =>
                   ("ser2_ok", toJson false)]
               | .ok (_, q2) => [("ser_ok", toJson true), ("q", modelPJ q), ("deser2_ok", toJson true),
                   ("ser2_ok", toJson true), ("q2", modelPJ q2)]
-        return obj ([("ok", toJson true), ("world", mworldJ w)] ++ extra)
+        -- hypothesis of C17_ir9_entries_inert: the main-graph initializers are keyed by the name of their value
+        let keysNamed := w.root.inits.all fun kv => (w.st.vals kv.2).name == some kv.1
+        return obj ([("ok", toJson true), ("world", mworldJ w), ("init_keys_named", toJson keysNamed)] ++ extra)
   | "scope.mser9" => some do
       let w ← parseMWorld (j.getObjValD "w")
       let fixed := (j.getObjValAs? Bool "fixed").toOption.getD false
